@@ -3,8 +3,17 @@ H = "harness/C06_fe.c"
 def R(defs):
     return {"name": "fe_chunking_replay", "harness": H, "entry": "r_fe_chunking", "defines": defs, "native_replay": True, "canary": False, "allow_no_body": ["*"], "unwind": 14,
             "native_sources": "ALL", "native_exclude": ["fe_interface.c"]}
+def C(name, chunks, tiers=("quick", "thorough")):
+    d = ["FS=5", "SH=2", "NS=11", "NCHUNK=3", "CHUNKS=" + chunks]
+    return dict(name=name, harness=H, entry="r_fe_chunking", defines=d, allow_no_body=["*"], unwind=14, replay=R(d), tiers=tiers,
+                unwindset="ssw_memcpy.0:24,ssw_memmove.0:24,ssw_memmove.1:24", timeout={"quick": 600, "thorough": 1800},
+                bounded="geometry 5 / 2, 11 concrete distinct samples, chunk sizes (%s), symbolic output limit 1..3 per call, int16 and float32" % chunks)
+HC = "harness/C06_fe_contracts.c"
 GROUPS = [
-    dict(name="fe_chunking_5_2", harness=H, entry="r_fe_chunking", defines=["FS=5", "SH=2", "NS=9", "NCHUNK=2"], allow_no_body=["*"], unwind=12, replay=R(["FS=5", "SH=2", "NS=9", "NCHUNK=2"]),
+    dict(name="output_frame_count", harness=HC, enforce="output_frame_count", allow_no_body=["*"], min_postconditions=3, defines=["SSW_NO_MEM_STUBS"]),
+    dict(name="overflow_append", tiers=("probe",), harness=HC, enforce="overflow_append", replace=["ssw_memcpy"], allow_no_body=["*"], min_postconditions=3, defines=["SSW_NO_MEM_STUBS"], unwind=3),
+    C("fe_chunks_7_0_4", "7,0,4"), C("fe_chunks_6_5_0", "6,5,0"), C("fe_chunks_3_4_4", "3,4,4"), C("fe_chunks_9_1_1", "9,1,1", tiers=("thorough",)), C("fe_chunks_1_8_2", "1,8,2", tiers=("thorough",)),
+    dict(name="fe_chunking_5_2", tiers=("probe",), harness=H, entry="r_fe_chunking", defines=["FS=5", "SH=2", "NS=9", "NCHUNK=2"], allow_no_body=["*"], unwind=12, replay=R(["FS=5", "SH=2", "NS=9", "NCHUNK=2"]),
          unwindset="ssw_memcpy.0:24,ssw_memmove.0:24,ssw_memmove.1:24", backends=[["--sat-solver", "cadical"]], timeout={"quick": 900, "thorough": 1800},
          bounded="geometry frame_size 5 / frame_shift 2 (size > 2*shift, like the shipped 410/160), 9 concrete distinct samples, 2 chunks of symbolic sizes, symbolic output limit 1..3 per call, int16 and float32 input"),
     dict(name="fe_chunking_5_2_3chunks", harness=H, entry="r_fe_chunking", defines=["FS=5", "SH=2", "NS=11", "NCHUNK=3"], allow_no_body=["*"], unwind=14, replay=R(["FS=5", "SH=2", "NS=11", "NCHUNK=3"]),
@@ -15,3 +24,24 @@ GROUPS = [
     dict(name="fe_chunking_7_3", harness=H, entry="r_fe_chunking", defines=["FS=7", "SH=3", "NS=14"], allow_no_body=["*"], unwind=18, replay=R(["FS=7", "SH=3", "NS=14"]), tiers=("thorough",), unwindset="ssw_memcpy.0:32,ssw_memmove.0:32,ssw_memmove.1:32", backends=[["--sat-solver", "cadical"]], timeout={"quick": 900, "thorough": 2400},
          bounded="geometry 7 / 3, 14 samples"),
 ]
+
+NATIVE = [
+    dict(name="fe_chunking_enum_5_2", source="native/fe_chunking_enum.c", repo_sources="ALL_EXCEPT:fe_interface.c", cflags=["-w", "-DSSW_REPLAY", "-DSOUNDSWALLOWER_VERIF", "-DFS=5", "-DSH=2", "-DNS=11", "-I/verif/harness"],
+         args={"quick": [], "thorough": []}, exhaustive=True,
+         bound="geometry 5/2, 11 samples: EVERY split into <= 3 chunks x EVERY output-limit pattern in {1,2,3}^6 x both encodings (459 108 runs of the real fe_process/fe_end)"),
+    dict(name="fe_chunking_enum_7_3", source="native/fe_chunking_enum.c", repo_sources="ALL_EXCEPT:fe_interface.c", cflags=["-w", "-DSSW_REPLAY", "-DSOUNDSWALLOWER_VERIF", "-DFS=7", "-DSH=3", "-DNS=16", "-I/verif/harness"],
+         args={"quick": [], "thorough": []}, exhaustive=True, tiers=("thorough",),
+         bound="geometry 7/3, 16 samples, same enumeration"),
+]
+
+ASSUMPTIONS = [
+    "the DSP stage (windowing, FFT, mel filters, DCT) is replaced in the chunking harness by a stub that maintains the analysis window exactly as fe_read_frame_* / fe_shift_frame_* do and records it per frame: bit-identity of cepstra follows if the real DSP functions read only the window, pre-emphasis history and constants (argued, not proved); dither off",
+    "geometry is concrete per run: contracts on the shipped 410/160, chunking harness on 5/2 (size > 2*shift like the shipped one); chunk sizes concrete per CBMC run, exhaustive in the native enumeration",
+    "memcpy replaced by a bounds-only contract in overflow_append (integer level)",
+]
+HAND_LEMMAS = ["int16 and float32 input give the same window values: int16_float_exact (C18) over all 65 536 sample values, plus the chunking harness runs both encodings"]
+NOT_COVERED = ["the DSP functions themselves", "overflow_append as a DFCC contract (written, tier probe: three obligations fail for reasons not yet understood -- no counterexample could be extracted within the time limit -- so it is not claimed)", "fe_process as a DFCC contract (the frame loop and overflow helpers are checked by bounded runs and native enumeration instead)", "dither", "sample rates / window lengths other than the two geometries"]
+CLAIM = dict(
+    text="Sample bookkeeping of the front end: output_frame_count is proved on the shipped geometry 410/160 (the frame estimate depends only on the number of samples buffered plus offered, within one frame of 1 + (n - size)/shift). The window schedule -- frame k is computed from samples k*shift .. k*shift+size-1 whatever the chunking, the per-call output limits and the encoding, every sample consumed exactly once, trailing partial frame zero padded -- is checked on the real fe_process/fe_end and overflow helpers (DSP stage stubbed by a window recorder) by CBMC for fixed chunk patterns with symbolic limits (bounded) and by exhaustive native enumeration of all 459 108 chunkings x limit patterns x encodings of an 11-sample signal (bounded). One genuine deviation found (known finding): one frame fewer when the stream ends on a window boundary after an output-limited call.",
+    note="DSP stage stubbed (determinism of the real DSP argued); small geometry for the schedule; known finding listed in known_findings.txt; trusted: CBMC 6.11, host compiler for the native enumeration",
+    technique="CBMC function contracts (goto-instrument --dfcc) for the loop-free helpers; CBMC bounded runs and native exhaustive enumeration of the constructive harness as bounded stand-ins for fe_process")
